@@ -147,6 +147,19 @@ CLAIMED = {
         'note': TB + ' Does not decide equality of node counts as such, nor state outside these classes (static-storage writers are listed for review).',
         'technique': 'custom static analysis: effect (write-set) analysis with must-write on all CFG paths, reset-value agreement, must-call chains',
     },
+    'C18': {
+        'text': 'Clause-limited static decision (level "other"): (1) Book::getBookMove: the result is cleared first, every candidate is '
+                'validated against the generated legal-move list with a per-candidate flag, a failed test ends the probe with no move, the '
+                'only non-empty result is taken from the validated entries after the validation loop, non-positive weight yields no move; '
+                '(2) polyglot promotion codes, bit layout and all four castling conversions are mutually inverse between getPGMove and '
+                'getMove; the built-in book promotion tables are inverse (constant evaluation over all codes); (3) a failed read zero-fills '
+                'exactly the bytes read before decoding, the binary search and the scan only touch indices inside the file, only entries '
+                'stored under the position key are offered. Right level: "for any file" quantifies over inputs; legality of the answer '
+                'follows from the validate-before-return structure for every file content.',
+        'design_ref': 'DESIGN.md section 2, C18',
+        'note': TB + ' Assumes the legal move generator is correct (C01). Does not decide that a corrupt file never yields a legal-but-wrong move.',
+        'technique': 'custom static analysis: validated-candidate typestate with per-iteration flag reset, dominance, inverse switch tables, constant evaluation, index-bound structure',
+    },
 }
 
 _PENDING = 'rules for this property are not implemented yet in this revision of /verif (planned clauses: DESIGN.md section 2); not claimed until they are'
